@@ -495,24 +495,31 @@ Definition parse_addition (C : cdecl) (o : options) (key : string) (v : pyval) :
 
 Definition sdata := list (string * pyval).
 
-(* required / default pass of data_first_parse (480-494) *)
-Fixpoint dfs_missing (o : options) (fields : list (string * field)) (result : sdata) (unprov : list string)
-  : M (sdata * list string) :=
-  match fields with
-  | [] => ret (result, unprov)
-  | (_, f) :: rest =>
-      let name := f_name f in
-      if has_key name result then dfs_missing o rest result unprov
-      else
-        let unprov' := name :: unprov in
-        if is_required f o then
-          do _ <- handle_error o (parse_err_at KAbsence (PStr name)) false;
-          dfs_missing o rest result unprov'
-        else match get_default f o with
-             | Some d => dfs_missing o rest (sdict_set result name d) unprov'
-             | None => dfs_missing o rest result unprov'
-             end
+(* a loop with a body that may record or raise errors *)
+Fixpoint mfold {S E} (step : S -> E -> M S) (l : list E) (s : S) : M S :=
+  match l with
+  | [] => ret s
+  | e :: r => do s' <- step s e; mfold step r s'
   end.
+
+(* required / default pass of data_first_parse: state = (result, unprovided_fields) *)
+Definition dfs_missing_step (o : options) (st : sdata * list string) (kf : string * field)
+  : M (sdata * list string) :=
+  let '(result, unprov) := st in
+  let f := snd kf in
+  let name := f_name f in
+  if has_key name result then ret st
+  else
+    let unprov' := name :: unprov in
+    if is_required f o then
+      do _ <- handle_error o (parse_err_at KAbsence (PStr name)) false;
+      ret (result, unprov')
+    else match get_default f o with
+         | Some d => ret (sdict_set result name d, unprov')
+         | None => ret (result, unprov')
+         end.
+Definition dfs_missing (o : options) (fields : list (string * field)) (result : sdata) (unprov : list string)
+  : M (sdata * list string) := mfold (dfs_missing_step o) fields (result, unprov).
 
 Definition deps_check (o : options) (deps : list string) (result : sdata) (unprov : list string) : M unit :=
   let lack := filter (fun d => negb (has_key d result) || str_in d unprov) deps in
@@ -521,85 +528,82 @@ Definition deps_check (o : options) (deps : list string) (result : sdata) (unpro
   | _ => handle_error o (parse_err KDependencies) false
   end.
 
-(* data_first_parse main loop; raw = the values given so far, by field name *)
-Fixpoint dfs_loop (C : cdecl) (o : options) (depth : Z) (data : sdata)
-         (result raw addition : sdata) (deps : list string) : M (sdata * sdata * list string) :=
-  match data with
-  | [] => ret (result, addition, deps)
-  | (key, value) :: rest =>
-      match get_field C key with
-      | None =>
-          do a <- parse_addition C o key value;
-          dfs_loop C o depth rest result raw
-                   (match a with Some x => sdict_set addition key x | None => addition end) deps
-      | Some f =>
-          let name := f_name f in
-          if is_no_input f o then
-            dfs_loop C o depth rest
-                     (match get_default f o with Some d => sdict_set result name d | None => result end)
-                     raw addition deps
-          else
-            let seen := if o_ignore_alias_conflicts o then None
-                        else match assoc name raw with
-                             | Some prev => Some prev
-                             | None => assoc name result
-                             end in
-            match seen with
-            | Some prev =>
-                do _ <- (if negb (py_eq prev value)
-                         then handle_error o (parse_err_at KAliasConflict (PStr name)) false else ret tt);
-                dfs_loop C o depth rest result raw addition deps
-            | None =>
-                let raw' := sdict_set raw name value in
-                do p <- parse_value o depth f value;
-                match p with
-                | None => dfs_loop C o depth rest result raw' addition deps
-                | Some r => dfs_loop C o depth rest (sdict_set result name r) raw' addition
-                                     (deps ++ f_dependencies f)
-                end
+(* data_first_parse main loop; state = (result, raw, addition, dependencies) where raw holds the
+   values given so far, by field name *)
+Definition dfs_state : Type := sdata * sdata * sdata * list string.
+Definition dfs_step (C : cdecl) (o : options) (depth : Z) (st : dfs_state) (kv : string * pyval) : M dfs_state :=
+  let '(result, raw, addition, deps) := st in
+  let '(key, value) := kv in
+  match get_field C key with
+  | None =>
+      do a <- parse_addition C o key value;
+      ret (result, raw, (match a with Some x => sdict_set addition key x | None => addition end), deps)
+  | Some f =>
+      let name := f_name f in
+      if is_no_input f o then
+        ret ((match get_default f o with Some d => sdict_set result name d | None => result end),
+             raw, addition, deps)
+      else
+        let seen := if o_ignore_alias_conflicts o then None
+                    else match assoc name raw with
+                         | Some prev => Some prev
+                         | None => assoc name result
+                         end in
+        match seen with
+        | Some prev =>
+            do _ <- (if negb (py_eq prev value)
+                     then handle_error o (parse_err_at KAliasConflict (PStr name)) false else ret tt);
+            ret st
+        | None =>
+            let raw' := sdict_set raw name value in
+            do p <- parse_value o depth f value;
+            match p with
+            | None => ret (result, raw', addition, deps)
+            | Some r => ret (sdict_set result name r, raw', addition, deps ++ f_dependencies f)
             end
-      end
+        end
   end.
+Definition dfs_loop (C : cdecl) (o : options) (depth : Z) (data : sdata) (st : dfs_state) : M dfs_state :=
+  mfold (dfs_step C o depth) data st.
 
 Definition sdict_update (a b : sdata) : sdata := fold_left (fun acc kv => sdict_set acc (fst kv) (snd kv)) b a.
 
 Definition data_first_parse (C : cdecl) (o : options) (depth : Z) (data : sdata) : M sdata :=
-  do r <- dfs_loop C o depth data [] [] [] [];
-  let '(result, addition, deps) := r in
+  do r <- dfs_loop C o depth data ([], [], [], []);
+  let '(result, _, addition, deps) := r in
   do r2 <- dfs_missing o (c_fields C) result [];
   let '(result2, unprov) := r2 in
   do _ <- (match deps with [] => ret tt | _ => deps_check o deps result2 unprov end);
   ret (sdict_update result2 addition).
 
-(* field_first_parse: keys of case-insensitive names folded to lower case; the same name given twice with
-   different values is an alias conflict and the first value is kept *)
-Fixpoint ffs_fold (C : cdecl) (o : options) (data acc : sdata) : M sdata :=
-  match data with
-  | [] => ret acc
-  | (k, v) :: rest =>
-      let lk := str_lower k in
-      if str_in lk (c_ci_names C) then
-        match assoc lk acc with
-        | Some prev =>
-            if negb (o_ignore_alias_conflicts o) && negb (py_eq prev v) then
-              do _ <- (match get_field C lk with
-                       | Some f => if is_no_input f o then ret tt
-                                   else handle_error o (parse_err_at KAliasConflict (PStr (f_name f))) false
-                       | None => ret tt
-                       end);
-              ffs_fold C o rest acc
-            else ffs_fold C o rest (sdict_set acc lk v)
-        | None => ffs_fold C o rest (sdict_set acc lk v)
-        end
-      else ffs_fold C o rest (sdict_set acc k v)
-  end.
+(* field_first_parse: keys of case-insensitive names are folded to lower case first; the same name
+   given twice keeps its first value, and different values are an alias conflict *)
+Definition ffs_fold_step (C : cdecl) (o : options) (acc : sdata) (kv : string * pyval) : M sdata :=
+  let '(k, v) := kv in
+  let lk := str_lower k in
+  if str_in lk (c_ci_names C) then
+    match assoc lk acc with
+    | Some prev =>
+        if o_ignore_alias_conflicts o then ret (sdict_set acc lk v)
+        else
+          do _ <- (if negb (py_eq prev v) then
+                     match get_field C lk with
+                     | Some f => if is_no_input f o then ret tt
+                                 else handle_error o (parse_err_at KAliasConflict (PStr (f_name f))) false
+                     | None => ret tt
+                     end
+                   else ret tt);
+          ret acc
+    | None => ret (sdict_set acc lk v)
+    end
+  else ret (sdict_set acc k v).
 Definition ffs_prepare (C : cdecl) (o : options) (data : sdata) : M sdata :=
   match c_ci_names C with
   | [] => ret data
-  | _ => ffs_fold C o data []
+  | _ => mfold (ffs_fold_step C o) data []
   end.
 
-(* value lookup over field.all_aliases (538-553): result value (None = unprovided), conflict flag *)
+(* value lookup over field.all_aliases: result value (None = unprovided), conflict flag *)
 Fixpoint ffs_lookup (ignore_conflicts : bool) (aliases : list string) (data : sdata)
          (value : option pyval) : option pyval * bool :=
   match aliases with
@@ -617,52 +621,50 @@ Fixpoint ffs_lookup (ignore_conflicts : bool) (aliases : list string) (data : sd
       end
   end.
 
-Fixpoint ffs_loop (o : options) (depth : Z) (data : sdata) (fields : list (string * field))
-         (result : sdata) (used unprov deps : list string) : M (sdata * list string * list string * list string) :=
-  match fields with
-  | [] => ret (result, used, unprov, deps)
-  | (_, f) :: rest =>
-      let name := f_name f in
-      let '(value, conflict) := ffs_lookup (o_ignore_alias_conflicts o) (f_all_aliases f) data None in
-      match value with
-      | None =>
-          let unprov' := name :: unprov in
-          if is_required f o then
-            do _ <- handle_error o (parse_err_at KAbsence (PStr name)) false;
-            ffs_loop o depth data rest result used unprov' deps
-          else
-            ffs_loop o depth data rest
-                     (match get_default f o with Some d => sdict_set result name d | None => result end)
-                     used unprov' deps
-      | Some v =>
-          let used' := used ++ f_all_aliases f in
-          if is_no_input f o then
-            ffs_loop o depth data rest
-                     (match get_default f o with Some d => sdict_set result name d | None => result end)
-                     used' unprov deps
-          else
-            do _ <- (if conflict then handle_error o (parse_err_at KAliasConflict (PStr name)) false else ret tt);
-            do p <- parse_value o depth f v;
-            match p with
-            | None => ffs_loop o depth data rest result used' unprov deps
-            | Some r => ffs_loop o depth data rest (sdict_set result name r) used' unprov
-                                 (deps ++ f_dependencies f)
-            end
-      end
+(* state = (result, used_alias, unprovided_fields, dependencies) *)
+Definition ffs_state : Type := sdata * list string * list string * list string.
+Definition ffs_step (o : options) (depth : Z) (data : sdata) (st : ffs_state) (kf : string * field) : M ffs_state :=
+  let '(result, used, unprov, deps) := st in
+  let f := snd kf in
+  let name := f_name f in
+  let '(value, conflict) := ffs_lookup (o_ignore_alias_conflicts o) (f_all_aliases f) data None in
+  match value with
+  | None =>
+      let unprov' := name :: unprov in
+      if is_required f o then
+        do _ <- handle_error o (parse_err_at KAbsence (PStr name)) false;
+        ret (result, used, unprov', deps)
+      else
+        ret ((match get_default f o with Some d => sdict_set result name d | None => result end),
+             used, unprov', deps)
+  | Some v =>
+      let used' := used ++ f_all_aliases f in
+      if is_no_input f o then
+        ret ((match get_default f o with Some d => sdict_set result name d | None => result end),
+             used', unprov, deps)
+      else
+        do _ <- (if conflict then handle_error o (parse_err_at KAliasConflict (PStr name)) false else ret tt);
+        do p <- parse_value o depth f v;
+        match p with
+        | None => ret (result, used', unprov, deps)
+        | Some r => ret (sdict_set result name r, used', unprov, deps ++ f_dependencies f)
+        end
   end.
+Definition ffs_loop (o : options) (depth : Z) (data : sdata) (fields : list (string * field)) (st : ffs_state)
+  : M ffs_state := mfold (ffs_step o depth data) fields st.
 
-Fixpoint ffs_addition (C : cdecl) (o : options) (data : sdata) (used : list string) (addition : sdata) : M sdata :=
-  match data with
-  | [] => ret addition
-  | (k, v) :: rest =>
-      if str_in k used then ffs_addition C o rest used addition
-      else do a <- parse_addition C o k v;
-           ffs_addition C o rest used (match a with Some x => sdict_set addition k x | None => addition end)
-  end.
+Definition ffs_add_step (C : cdecl) (o : options) (used : list string) (addition : sdata) (kv : string * pyval)
+  : M sdata :=
+  let '(k, v) := kv in
+  if str_in k used then ret addition
+  else do a <- parse_addition C o k v;
+       ret (match a with Some x => sdict_set addition k x | None => addition end).
+Definition ffs_addition (C : cdecl) (o : options) (data : sdata) (used : list string) (addition : sdata) : M sdata :=
+  mfold (ffs_add_step C o used) data addition.
 
 Definition field_first_parse (C : cdecl) (o : options) (depth : Z) (data0 : sdata) : M sdata :=
   do data <- ffs_prepare C o data0;
-  do r <- ffs_loop o depth data (c_fields C) [] [] [] [];
+  do r <- ffs_loop o depth data (c_fields C) ([], [], [], []);
   let '(result, used, unprov, deps) := r in
   do _ <- (match deps with [] => ret tt | _ => deps_check o deps result unprov end);
   match o_addition o with
